@@ -174,7 +174,7 @@ func (cs *concState) term(js interface{}, t types.Type) (Term, error) {
 	case KIface:
 		m, _ := js.(map[string]interface{})
 		if n, _ := m["nil"].(bool); n || m == nil {
-			return Term{"(mk-iface 0 0)", s}, nil
+			return Term{"(mk-iface 0 0 (_ bv0 64))", s}, nil
 		}
 		dyn, hasDyn := m["dyn"].(string)
 		if hasDyn && !strings.HasSuffix(dyn, ".govcReader") {
@@ -218,7 +218,7 @@ func (cs *concState) term(js interface{}, t types.Type) (Term, error) {
 		} else {
 			set("sfault", "Int", "0", "0")
 		}
-		return Term{fmt.Sprintf("(mk-iface 1 %d)", ref), s}, nil
+		return Term{fmt.Sprintf("(mk-iface 1 %d (_ bv0 64))", ref), s}, nil
 	case KArray:
 		m, _ := js.(map[string]interface{})
 		es, _ := m["array"].([]interface{})
